@@ -13,6 +13,11 @@ Decided:
              The propagated error sources (`?` on a local callee), per arm of its match on the frame's role, are the
              reviewed table below; in particular the DocumentChunk arm tolerates a failing lookup of the *parent's*
              chunk manifest and falls back to the chunk's own text. A new propagated source is reported.
+  COVER-C09e recall after reopen needs the persisted lexical index where the TOC says it is: the file offsets of every
+             lexical manifest collection in the Toc type graph (anchors whose name contains `lex` or `tantivy`:
+             IndexManifests.lex, IndexManifests.lex_segments, SegmentCatalog.lex_segments, SegmentCatalog.tantivy_segments)
+             are moved by adjust_offsets_after_wal_growth. (Shares the anchor computation of COVER-C02d; decided here
+             for the lexical collections only.)
 Not decided: recall itself (what the engines return)."""
 from . import lib
 from .facts import op_place
@@ -71,8 +76,29 @@ def candidate_loss(ctx, F):
     ctx.floor('ERR-C09d', n, 3, 'propagated error sources in resolve_chunk_context')
 
 
+def lex_offsets_moved(ctx, F):
+    from . import c02
+    ctx.rule('COVER-C09e', 'the offsets of every lexical index manifest collection in the TOC are moved when the embedded WAL grows')
+    adj = ctx.need('COVER-C09e', 'Memvid::adjust_offsets_after_wal_growth')
+    if adj is None:
+        return
+    ctx.touch(adj, len(adj.blocks))
+    c02.toc_offset_fields(F)
+    c02.adjusted_fields(F, adj)
+    lexical = sorted({a for anchors in c02.toc_offset_fields.anchors.values() for a in anchors if 'lex' in a[1] or 'tantivy' in a[1]})
+    ctx.floor('COVER-C09e', len(lexical), 4, 'lexical manifest collections holding file offsets in the Toc type graph')
+    for a in lexical:
+        ctx.evaluations += 1
+        if a in c02.adjusted_fields.anchors:
+            ctx.ok('COVER-C09e', adj, '%s.%s offsets are moved by delta' % a)
+        else:
+            ctx.bad('COVER-C09e', adj, 'the lexical index descriptors held in %s.%s are not moved when the embedded WAL grows: after the growth and a reopen the engine is loaded from '
+                    'delta bytes before its data (or not at all) and keyword queries lose documents' % a, sink='%s.%s' % a, detail='lex-offset-not-shifted:%s.%s' % a)
+
+
 def run(ctx):
     candidate_loss(ctx, ctx.facts())
+    lex_offsets_moved(ctx, ctx.facts())
     ctx.rule('FLOW-C09a', 'the lossy sketch candidate set does not become the engines\' hard candidate filter')
     ctx.rule('MPT-C09b', 'sketch stage only on the no_sketch == false edge')
     ctx.rule('MPT-C09c', 'Tantivy path falls back to the lex engine on empty results/evaluation')
